@@ -22,8 +22,7 @@ def unit_closure(units):
         if u in seen:
             continue
         seen.append(u)
-        with open(os.path.join(VERIF, "units", u + ".rs.in")) as f:
-            txt = f.read()
+        txt = vunit.read_template(u)
         for m in re.finditer(r"^//@(?:assume|views)\s+(\S+)(?:\s+uninterp)?", txt, re.M):
             if m.group(0).startswith("//@views") and "uninterp" not in m.group(0):
                 continue
@@ -35,8 +34,7 @@ def unit_closure(units):
 
 def needs_rlibs(units):
     for u in units:
-        with open(os.path.join(VERIF, "units", u + ".rs.in")) as f:
-            m = re.search(r"^//@unit.*externs=(\S+)", f.read(), re.M)
+        m = re.search(r"^//@unit.*externs=(\S+)", vunit.read_template(u), re.M)
         if m and m.group(1) != "none":
             return True
     return False
